@@ -145,7 +145,8 @@ def _ids(expr, out=None):
 
 SEED_SCRIPT = r'''
 import sys, json, hashlib
-sys.path.insert(0, %r); sys.path.insert(0, '/repo')
+import os
+sys.path.insert(0, %r); sys.path.insert(0, os.environ.get('VERIF_REPO', '/repo'))
 from harness import proj
 from TexSoup import TexSoup
 srcs = json.load(open(sys.argv[1]))
